@@ -86,6 +86,12 @@ CHECKS["C20"] = (
     "Expected marker sets are hand-written per letter from the statement; 'internal class as type' / 'unknown type' markers are don't-care; non-literal defaults are kept out of the alphabet.",
     "6/C20",
 )
+CHECKS["C17"] = (
+    E1,
+    "All class hierarchies of <=3 (quick) / <=4 (thorough) classes - each public or private, ordered base lists of size <=2 over earlier classes, each class defining a subset of {m1,m2} with a return type unique to the definer - that have a consistent MRO and a public class with a private base; 4- and 5-class chains, forks, diamonds and ladders under all privacy assignments x 3 method placements; private bases carrying a private method / property / static method / class method / nested class; private bases moved to a second module. One hierarchy per module through the real pipeline; per public class: no member twice, every public method of a private-reachable ancestor present, own definition wins, nearest definer wins (where unique and MRO-consistent), no private class after 'sub', public direct bases listed in declaration order.",
+    "Precedence between equally near definers or where BFS-nearest and MRO disagree is don't-care; inherited properties/nested classes are counted but not required.",
+    "6/C17",
+)
 NOT_YET = {}  # id -> reason (filled for properties without a check)
 
 props = [json.loads(l) for l in open(V / "properties.jsonl")]
